@@ -422,6 +422,7 @@ pub fn run(tier: Tier, _seed: u64, tally: &mut Tally) -> CheckMeta {
     tally.sample(json!({"seed": "gen:rich-xrefstream", "fault": "substitute", "at": 4711, "byte": 40}));
     tally.sample(json!({"seed": "gen:small", "fault": "token", "text": "18446744073709551615", "note": "a number token replaced by a boundary token"}));
     tally.sample(json!({"seed": "corpus:invalid/crash-121-1.pdf", "fault": "truncate", "at": 100}));
+    tally.notes.push(format!("{} crashes or missed deadlines did not reproduce when the same input was walked again in a fresh worker process; they are not counted", crate::isolate::TRANSIENT.load(std::sync::atomic::Ordering::Relaxed)));
     for s in &seeds {
         tally.notes.push(format!("seed {} ({} bytes)", s.name, s.bytes.len()));
     }
